@@ -82,3 +82,17 @@ reg("C20", "E1-product",
     "Meta() == no metadata under the projection (by design). Keys of the textual forms are non-empty and "
     "'/'-free as the property states. SQLite rollback is outside the claimed round trip.",
     "DESIGN.md §4 C20")
+
+reg("C03", "E1-product",
+    "exhaustive enumeration of entry sets x insertion permutations x metadata, and of file creation orders x job counts x every completion permutation of the hashing pool x hash-state warmth, vs an independent canonical encoder",
+    "Pure part: every entry set of <= 3 (thorough 5) paths over a nested, non-ASCII path universe x 2 hashes x "
+    "every insertion permutation x 5 metadata decorations: bytes and identifier equal the hand-written "
+    "canonical encoder's, no two sets share bytes, from_list(as_list) is the identity (with and without "
+    "metadata), get_obj/filter for every prefix equal the directly built sub-tree. File-system part: 3 trees "
+    "(incl. >= 2 files of 2^20+1 bytes in one directory so the pool is reached, duplicate contents, empty "
+    "file) in rotated/reversed (thorough: all) creation orders x jobs {1,2,4} x every completion permutation "
+    "of the pool (permuting executor) x state {none,cold,warm,touched}; _get_hashes with a 1-byte threshold; "
+    "sub-directory object == build() of the sub-directory; free-running real pool as a cross-check.",
+    "Pool tasks are independent (state=None, disjoint files): completion permutations cover all pool schedules. "
+    "Key parts contain no '/'.",
+    "DESIGN.md §4 C03")
